@@ -233,7 +233,17 @@ def _nd_filln_cfgs():
     out.append({"n": 2, "shape": (2, 1), "kinds": ("fixed", "numpy"), "ire": (False, True), "dtype": "int64", "weights": None, "nan": False})
     out.append({"n": 2, "shape": (1, 2), "kinds": ("static", "static"), "ire": (True, True), "dtype": "float64", "weights": "float64", "nan": True})
     out.append({"n": 1, "shape": (1, 2), "kinds": ("static", "static"), "ire": (True, True), "dtype": "int64", "weights": None, "nan": True})
+    # a row with an infinite coordinate is an entry like any other: it lies outside every bin and is counted as missed
+    out.append({"n": 2, "shape": (1, 2), "kinds": ("static", "static"), "ire": (True, True), "dtype": "float64", "weights": "float64", "nan": False, "inf": 1.0})
+    out.append({"n": 1, "shape": (1, 2), "kinds": ("static", "gapped"), "ire": (True, True), "dtype": "int64", "weights": None, "nan": False, "inf": -1.0})
     return out
+
+
+def _put(arr, ix, v):
+    if isinstance(arr, np.ndarray):
+        arr[ix] = v
+    else:
+        arr.set(ix, v)
 
 
 @contract(HNDK + ".fill_n", props=["C03", "C13", "C18"])
@@ -246,6 +256,8 @@ class _nd_fill_n:
         c = b.cfg
         bins = nd_binnings(b, c.shape, c.kinds, c.ire)
         kw = dict(self=histnd(b, "h", bins, c.shape, dtype=c.dtype), values=b.array("d", (c.n, len(c.shape)), nan=c.nan))
+        if getattr(c, "inf", None):
+            _put(kw["values"], (c.n - 1, 0), c.inf * float("inf"))
         if c.weights:
             kw["weights"] = b.array("w", (c.n,), c.weights)
             nonneg(b, kw["weights"])
@@ -293,6 +305,8 @@ def _proj_cfgs():
     out.append({"shape": (1, 2, 1, 2), "axes": (3, 0, 1)})
     out.append({"shape": (2, 1, 2), "axes": ("z",), "names": ("", "", "z")})      # unnamed axes before the one addressed by name
     out.append({"shape": (2, 1, 2), "axes": ("y", 2), "names": ("", "y", "")})
+    out.append({"shape": (2, 2), "axes": (0,), "dtype": "int16"})         # a narrow integer histogram: the marginal must not wrap
+    out.append({"shape": (2, 1, 2), "axes": (0, 2), "dtype": "int16"})
     return out
 
 
@@ -314,12 +328,17 @@ class _projection:
         d = len(c.shape)
         bins = nd_binnings(b, c.shape, ["static"] * d)
         meta = {"name": "nm", "axis_names": tuple(getattr(c, "names", NAMES[:d]))}
-        return dict(self=histnd(b, "h", bins, c.shape, meta=meta), axes=tuple(c.axes))
+        return dict(self=histnd(b, "h", bins, c.shape, meta=meta, dtype=getattr(c, "dtype", "int64")), axes=tuple(c.axes))
 
     def invoke(I, fn, a, cfg):
         if I is not None:
             return I.call(fn, [a.self] + list(a.axes), {})
         return fn(a.self, *a.axes)
+
+    @ensures("the_marginal_is_accumulated_in_numpys_default_accumulator_type_not_in_a_narrow_content_type")
+    def _(a, old, result):
+        wide = np.ones(1, attr(old.self, "_dtype")).sum().dtype
+        return And(attr(result, "_dtype") == wide, dtype_of(attr(result, "_frequencies")) == wide, dtype_of(attr(result, "_errors2")) == wide)
 
     @ensures("marginal_contents_kept_axes_in_original_order")
     def _(a, old, result):
